@@ -310,7 +310,7 @@ func c30syn(arg string, add func(string, string, ...interface{}), res *Result) s
 	fp := conv.Package(sp)
 	// the generic oracle on the synthetic package as well
 	s2f, f2s := c30s2f, c30f2s
-	c30s2f, c30f2s = map[*gotypes.TypeName]*types.TypeName{}, map[*types.TypeName]*gotypes.TypeName{}
+	c30s2f, c30f2s = map[*gotypes.TypeName]*types.Named{}, map[*types.Named]*gotypes.TypeName{}
 	c30compareAll(sp, fp, add, res)
 	c30s2f, c30f2s = s2f, f2s
 	return c30dumpPackage(fp, sp.Scope().Names())
